@@ -451,6 +451,19 @@ fn model_ps(em: &mut Emitter, rng: &mut Rng) {
         vars.push(("index-eq-capacity", r5, sg1, sg2, j, resp.clone()));
         vars.push(("sigma1-identity", rvl.clone(), Scalar::ZERO, sg2, j, resp.clone()));
         vars.push(("sigma2-identity", rvl.clone(), sg1, Scalar::ZERO, j, resp.clone()));
+        // both points at infinity: the pairing equation holds trivially for every key and message vector, the Schnorr part
+        // can be produced for arbitrary messages — only the explicit identity test of `verify` stands in the way
+        vars.push(("sigmas-both-identity", rvl.clone(), Scalar::ZERO, Scalar::ZERO, j, resp.clone()));
+        {
+            let fake: Vec<Scalar> = secrets.iter().map(|_| rng.scalar()).collect();
+            let jf = bases.iter().zip(&fake).fold(Scalar::ZERO, |a, (b, s)| a + *b * *s);
+            let rf: Vec<Scalar> = nonces.iter().zip(&fake).map(|(n, s)| *n + c * *s).collect();
+            let mut r6 = rvl.clone();
+            for e in r6.iter_mut() {
+                e.1 = rng.scalar();
+            }
+            vars.push(("sigmas-both-identity-unsigned-messages", r6, Scalar::ZERO, Scalar::ZERO, jf, rf));
+        }
         vars.push(("sigma2-wrong", rvl.clone(), sg1, sg2 + Scalar::ONE, j, resp.clone()));
         for (label, r, a1, a2, jj, p) in vars {
             let pv = json!({"sigma_1": g1_hex_c(&g1(&a1)), "sigma_2": g1_hex_c(&g1(&a2)), "commitment": g2_hex_c(&g2(&jj)), "proof": p.iter().map(sc_hex).collect::<Vec<_>>()});
